@@ -86,8 +86,10 @@ def enc_query(q):
             o[key] = str(sym(v))
         elif key in ("x", "y"):
             o[key] = qstr(exact(v))
-        elif key == "ents":
+        elif key in ("ents", "ents2"):
             o[key] = [[str(sym(c)), str(sym(u)), str(int(e))] for c, u, e in v]
+        elif key == "f":
+            o[key] = v
     return o
 
 
@@ -176,6 +178,15 @@ def ask(db, q):
         if k in ("mul", "div"):
             a, b = Scalar(q["x"], q["u1"], q["c1"]), Scalar(q["y"], q["u2"], q["c2"])
             r = a * b if k == "mul" else a / b
+            return dict(ok=dict(describe(r.GetQuantity()), x=float(r.GetValue()).hex()))
+        if k == "sumd":
+            from collections import OrderedDict
+
+            from barril.units import ObtainQuantity
+
+            a = Scalar(ObtainQuantity(OrderedDict((c, [u, e]) for c, u, e in q["ents"])), q["x"])
+            b = Scalar(ObtainQuantity(OrderedDict((c, [u, e]) for c, u, e in q["ents2"])), q["y"])
+            r = a + b if q["f"] == "add" else a - b
             return dict(ok=dict(describe(r.GetQuantity()), x=float(r.GetValue()).hex()))
         if k in ("derived", "createDerived"):
             from collections import OrderedDict
